@@ -18,8 +18,17 @@ Definition has_peg_request (b : list tx) : bool := existsb is_peg_request b.
 (* TransactionBatch.Validate(height) on a stored/decoded entry: the data part is height
    independent; the signature part accepts RCD-e only strictly above the activation *)
 (* amounts are uint64 in the Go structures: a decoded batch never carries a negative one *)
-Definition tx_amounts_okb (t : tx) : bool :=
+Definition tx_nonneg_okb (t : tx) : bool :=
   (0 <=? tx_amt t) && forallb (fun tr => 0 <=? tr_amt tr) (tx_transfers t).
+(* Transaction.Validate / TransactionBatch.Validate: the outputs of a transfer add up to its input EXACTLY
+   (over the integers: a sum that only matches modulo 2^64 is not a match) and the input fits int64 *)
+Definition tx_sum_okb (t : tx) : bool :=
+  (tx_amt t <=? max_int64) &&
+  match tx_transfers t with
+  | [] => true
+  | trs => fold_right (fun tr acc => tr_amt tr + acc) 0 trs =? tx_amt t
+  end.
+Definition tx_amounts_okb (t : tx) : bool := tx_nonneg_okb t && tx_sum_okb t.
 Definition entry_valid_at (c : cfg) (e : entry) (h : Z) : option (list tx) :=
   match e_batch e with
   | None => None
